@@ -7,7 +7,7 @@
    A mask is a list of rows, [true] = masked; [get m y x] reads m[y, x]; slim index k denotes
    [pixel_of_slim m k], the k-th unmasked pixel in row-major order. *)
 From Coq Require Import ZArith List Bool.
-From PAV Require Import Base.Res Model.C10 Proofs.C10 Proofs.C10b.
+From PAV Require Import Base.Res Base.Check Model.C10 Proofs.C10 Proofs.C10b Proofs.C10c.
 Import ListNotations.
 Local Open Scope Z_scope.
 
@@ -158,6 +158,15 @@ Theorem C10_buffed_spec_meaning : forall m bf y x, 0 <= y < shape0 m /\ 0 <= x <
    exists y' x', (0 <= y' < shape0 m /\ 0 <= x' < shape1 m) /\ get m y' x' = false /\ Z.abs (y - y') <= bf /\ Z.abs (x - x') <= bf).
 Proof. exact buffed_spec_exact. Qed.
 
+(* ---------------------------------------------------------------------------------------------- the correspondence test *)
+(* the specification's acceptance test accepts every output of the model, for every operation of the correspondence
+   run: whenever the implementation's output equals the model's, the specification accepts it; so a non-zero verdict
+   always means "implementation <> model" and verdict 0 means exactly "implementation = model" *)
+Theorem C10_spec_accepts_model : forall k : case, agree k = true -> spec_ok k = true.
+Proof. exact agree_implies_spec_ok. Qed.
+Theorem C10_check_zero_iff_agree : forall k : case, check k = 0%nat <-> agree k = true.
+Proof. exact check_zero_iff_agree. Qed.
+
 (* ---------------------------------------------------------------------------------------------- non-vacuity *)
 (* Proofs.C10b.ex_mask: 6x6, 20 unmasked pixels, a hole at (3,3), an interior pixel (1,2) = slim 4, a pixel whose only
    masked neighbour is diagonal (2,2) = slim 9, unmasked pixels on the outer row and columns ((0,2) = slim 1 has no
@@ -200,3 +209,4 @@ Print Assumptions C10_views_agree_edge. Print Assumptions C10_views_agree_border
 Print Assumptions C10_mask_edge_entries. Print Assumptions C10_mask_border_entries.
 Print Assumptions C10_build_entries. Print Assumptions C10_memp_meaning.
 Print Assumptions C10_edge_buffed_is_spec. Print Assumptions C10_buffed_util_is_spec. Print Assumptions C10_buffed_spec_meaning.
+Print Assumptions C10_spec_accepts_model. Print Assumptions C10_check_zero_iff_agree.
